@@ -45,30 +45,62 @@ type vpC14Ev struct {
 }
 
 type vpC14Rec struct {
-	mu    sync.Mutex
-	cond  *sync.Cond
-	words map[net.Conn][]vpC14Ev
-	other int // callbacks for connections that are not vpWire
+	mu     sync.Mutex
+	cond   *sync.Cond
+	words  map[net.Conn][]vpC14Ev
+	other  int                // callbacks for connections the harness cannot attribute
+	byAddr map[string]*vpWire // remote address -> connection handed to the server (every wire has its own)
+	broken []string           // callbacks whose conn argument could not even be asked for its address
 }
 
 func vpC14NewRec() *vpC14Rec {
-	r := &vpC14Rec{words: map[net.Conn][]vpC14Ev{}}
+	r := &vpC14Rec{words: map[net.Conn][]vpC14Ev{}, byAddr: map[string]*vpWire{}}
 	r.cond = sync.NewCond(&r.mu)
 	return r
 }
 
-func (r *vpC14Rec) hook(c net.Conn, st ConnState) {
-	d := -1
-	if w, ok := c.(*vpWire); ok {
-		d = w.Delivered()
-	}
+func (r *vpC14Rec) register(w *vpWire) {
 	r.mu.Lock()
-	if d < 0 {
-		r.other++
-	}
-	r.words[c] = append(r.words[c], vpC14Ev{State: st, Delivered: d})
-	r.cond.Broadcast()
+	r.byAddr[w.remote.String()] = w
 	r.mu.Unlock()
+}
+
+// vpC14RemoteOf asks the hook's conn argument which connection it is about, the way a hook can: by its
+// remote address. (The server may hand the hook a wrapper of the connection it was given.)
+func vpC14RemoteOf(c net.Conn) (addr string, panicked any) {
+	defer func() { panicked = recover() }()
+	return c.RemoteAddr().String(), nil
+}
+
+// resolve maps a connection as the server presents it (possibly wrapped) to the wire the harness made.
+func (r *vpC14Rec) resolve(c net.Conn) *vpWire {
+	if w, ok := c.(*vpWire); ok {
+		return w
+	}
+	addr, _ := vpC14RemoteOf(c)
+	r.mu.Lock()
+	defer r.mu.Unlock()
+	return r.byAddr[addr]
+}
+
+func (r *vpC14Rec) hook(c net.Conn, st ConnState) {
+	addr, panicked := vpC14RemoteOf(c)
+	r.mu.Lock()
+	defer r.mu.Unlock()
+	defer r.cond.Broadcast()
+	if panicked != nil {
+		r.broken = append(r.broken, fmt.Sprintf("ConnState(%T, %v): RemoteAddr() of the hook's connection argument panicked: %v", c, st, panicked))
+		return
+	}
+	w, ok := c.(*vpWire)
+	if !ok {
+		w = r.byAddr[addr]
+	}
+	if w == nil {
+		r.other++
+		return
+	}
+	r.words[w] = append(r.words[w], vpC14Ev{State: st, Delivered: w.Delivered()})
 }
 
 func (r *vpC14Rec) word(c net.Conn) []vpC14Ev {
@@ -245,6 +277,7 @@ type vpC14Cfg struct {
 	Keep          bool
 	ReadTimeoutMs int
 	Concurrency   int
+	MaxConnsPerIP int // > 0: the server wraps every connection for per-IP accounting (the limit itself is never reached here)
 }
 
 type vpC14ConnResult struct {
@@ -267,6 +300,7 @@ type vpC14Env struct {
 	hjRan        map[net.Conn]bool // hijack handler was started for this raw connection
 	hjActive     int               // hijack handlers currently running
 	scActive     int               // ServeConn calls currently running
+	nWires       int
 	serveConnErr map[net.Conn]error
 }
 
@@ -323,13 +357,14 @@ func vpC14NewEnv(cfg vpC14Cfg) *vpC14Env {
 		ReduceMemoryUsage:     cfg.RMU,
 		KeepHijackedConns:     cfg.Keep,
 		Concurrency:           cfg.Concurrency,
+		MaxConnsPerIP:         cfg.MaxConnsPerIP,
 		ReadTimeout:           time.Duration(cfg.ReadTimeoutMs) * time.Millisecond,
 		MaxIdleWorkerDuration: 100 * time.Millisecond, // only so that the worker pool's janitor goroutine ends soon after Serve returns
 		Logger:                vpNopLogger{},
 		ConnState:             e.rec.hook,
 		Handler: func(ctx *RequestCtx) {
 			if strings.HasPrefix(string(ctx.Path()), "/hj") {
-				raw := ctx.Conn()
+				raw := net.Conn(e.rec.resolve(ctx.Conn()))
 				keepReading := ctx.Request.Header.Peek("X-Vp-Read") != nil
 				if ctx.Request.Header.Peek("X-Vp-Noresp") != nil {
 					ctx.HijackSetNoResponse(true)
@@ -383,6 +418,11 @@ func (e *vpC14Env) serve(w *vpWire) {
 // rejection scenario); the returned finish func ends it.
 func (e *vpC14Env) runConn(h vpC14Hist, hold bool) (w *vpWire, starts []int, finish func()) {
 	w = vpNewWire(nil, h.Plan, false)
+	e.mu.Lock()
+	e.nWires++
+	w.remote = &net.TCPAddr{IP: net.IPv4(10, 1, 2, byte(3+e.nWires%2)), Port: 40000 + e.nWires}
+	e.mu.Unlock()
+	e.rec.register(w)
 	off := 0
 	for _, u := range h.Units {
 		starts = append(starts, off)
@@ -537,7 +577,11 @@ func vpC14RunCase(cfg vpC14Cfg, hists []vpC14Hist) (res []vpC14ConnResult, fail 
 	}
 	e.rec.mu.Lock()
 	other := e.rec.other
+	broken := append([]string(nil), e.rec.broken...)
 	e.rec.mu.Unlock()
+	if len(broken) > 0 && fail == "" {
+		fail = fmt.Sprintf("%d ConnState callbacks came with a connection argument that cannot be used to tell which connection they are about: %s", len(broken), broken[0])
+	}
 	if other > 0 && fail == "" {
 		fail = fmt.Sprintf("%d ConnState callbacks for connections the harness never handed to the server", other)
 	}
@@ -727,6 +771,7 @@ func TestVP_C14_ConnState(t *testing.T) {
 			ViaServe: rapid.Bool().Draw(t, "viaserve"),
 			Keep:     rapid.IntRange(0, 3).Draw(t, "keep") == 0,
 		}
+		cfg.MaxConnsPerIP = rapid.SampledFrom([]int{0, 0, 0, 8, 100}).Draw(t, "maxConnsPerIP")
 		n := rapid.SampledFrom([]int{1, 1, 2, 3}).Draw(t, "nconn")
 		var hists []vpC14Hist
 		for i := 0; i < n; i++ {
